@@ -130,5 +130,58 @@ def disasm_many(hexlist):
             cur += 1
         if t.startswith("int3") or cur < 0:
             continue
+        j = re.match(r"^(j\w+)\s+0x([0-9a-f]+)$", t)
+        if j:                                   # jump targets relative to the chunk's first byte
+            t = "%s 0x%x" % (j.group(1), int(j.group(2), 16) - offs[cur]) if int(j.group(2), 16) >= offs[cur] else "%s -0x%x" % (j.group(1), offs[cur] - int(j.group(2), 16))
         res[cur].append(t)
     return res
+
+
+def translate_call(text, w, start, term):
+    """one instruction of a runtime-call template -> X86Call.v syntax (driver handler `x86call`);
+    `start`/`term`: code offsets of the template and of the termination path (jump targets are
+    printed relative to the template's first byte)"""
+    text = text.strip()
+    m = re.match(r"^(\w+)\s*(.*)$", text)
+    if not m:
+        raise Unsupported(text)
+    mn, ops = m.group(1), [o.strip() for o in m.group(2).split(",") if o.strip()]
+
+    def r64(t):
+        if t in REG and REG[t][1] == 64:
+            return REG[t][0]
+        raise Unsupported("64-bit register expected: " + text)
+    if mn in ("push", "pop") and len(ops) == 1:
+        return "%s %d" % (mn, r64(ops[0]))
+    if mn in ("sub", "add") and len(ops) == 2 and ops[0] == "rsp" and num(ops[1]) == 8:
+        return "subrsp" if mn == "sub" else "addrsp"
+    if mn == "call" and len(ops) == 1:
+        return "call %d" % r64(ops[0])
+    if mn == "test" and len(ops) == 2 and ops[0] == ops[1] and ops[0] in REG and REG[ops[0]][1] == 8:
+        return "test8 %d" % REG[ops[0]][0]
+    if mn == "cmp" and len(ops) == 2 and ops[0] in REG and REG[ops[0]][1] == 64 and re.match(r"^-?(0x[0-9a-f]+|\d+)$", ops[1]):
+        return "cmp64 %d %d" % (REG[ops[0]][0], num(ops[1]) % (1 << 64))
+    if mn in ("je", "jne") and len(ops) == 1:
+        if num(ops[0]) != term - start:
+            raise Unsupported("conditional jump to %s, the termination path is at %s: %s" % (ops[0], hex(term - start), text))
+        return mn
+    if mn in ("mov", "movabs", "movzx") and len(ops) == 2:
+        d, s = ops
+        if "PTR" in d:                       # store of the low w bits
+            cell = mem_operand(d, w)
+            if not cell.startswith("c") or s not in REG or REG[s][1] != w:
+                raise Unsupported(text)
+            return "store %s %d" % (cell[1:], REG[s][0])
+        if "PTR" in s:                       # zero-extending load
+            cell = mem_operand(s, w)
+            ok = cell.startswith("c") and d in REG and ((mn == "movzx" and REG[d][1] == 32 and w < 32) or
+                                                        (mn == "mov" and REG[d][1] == 32 and w == 32) or
+                                                        (mn == "mov" and REG[d][1] == 64 and w == 64))
+            if not ok:
+                raise Unsupported(text)
+            return "load %d %s" % (REG[d][0], cell[1:])
+        if d in REG and REG[d][1] == 64 and s in REG and REG[s][1] == 64:
+            return "movrr %d %d" % (REG[d][0], REG[s][0])
+        if d in REG and REG[d][1] == 64 and re.match(r"^-?(0x[0-9a-f]+|\d+)$", s):
+            return "movi %d %d" % (REG[d][0], num(s) % (1 << 64))
+    raise Unsupported(text)
